@@ -13,6 +13,7 @@ import SSEPyVerif.Proofs.Schemes.CT14
 import SSEPyVerif.Proofs.Schemes.SSE1
 import SSEPyVerif.Proofs.Schemes.Pi2Lev
 import SSEPyVerif.Proofs.Schemes.DP17
+import SSEPyVerif.Proofs.Schemes.SSE2Complete
 namespace SSEPy.C02
 open SSEPy.Sch SSEPy.Sch.Chain
 
@@ -94,6 +95,39 @@ theorem SSE2.search_absent_empty (cfg : SSE2Cfg) (lv : Leaves) (K1 : Bytes) (db 
       refine ⟨a, by simpa using hg, ?_⟩
       rw [l2 a (hfresh a ha)]
       rfl
+
+/-- SSE-2, the WHOLE of C02 with no hypothesis about the run: accepted configuration, key half of `param_k` bytes, valid
+    database (as in `C01.SSE2.correct`), and a keyword that is NOT in the database (no leading NUL, at most `param_l`
+    bytes): `TokenGen` returns and `Search` yields the empty result on the index `EDBSetup` returned — nothing raises.
+    Freshness of the first address is derived from PRP injectivity (C15), not assumed. -/
+theorem SSE2.absent_correct (raw : RawCfg) (cfg : SSE2Cfg) (hcfg : SSE2.cfgBuild raw = .ok cfg) (lv : Leaves)
+    (hl : LeafLaws lv) (K1 : Bytes) (hK : (K1.length : Int) = cfg.k) (db : DB) (I : ITable)
+    (hs : SSE2.setup cfg lv K1 db = .ok I) (hkeys : (db.map (·.1)).Nodup) (hvalid : ∀ p ∈ db, NoLeadingNul p.1)
+    (hcap : ∀ id, (db.flatMap (·.2)).count id ≤ cfg.max)
+    (w : Bytes) (hw : NoLeadingNul w) (hwl : (w.length : Int) ≤ cfg.l) (habs : w ∉ db.map (·.1)) :
+    ∃ tk, SSE2.token cfg lv K1 w = .ok tk ∧ SSE2.search I tk = [] := by
+  obtain ⟨hu, hn, _⟩ := SSE2.cfgBuild_usable raw cfg hcfg
+  have hl8 : 0 < (cfg.l * 8).toNat := by have := hu.lpos; omega
+  have hcap' : ∀ I0 cnt, SSE2.encDb cfg lv K1 db [] [] = .ok (I0, cnt) → ∀ p ∈ cnt, p.2 ≤ cfg.max := fun I0 cnt h p hp => by
+    have := SSE2.encDb_cnt cfg lv K1 db [] [] [] I0 cnt h (fun q hq => by cases hq) p hp
+    simp only [List.nil_append] at this
+    exact Nat.le_trans this (hcap p.1)
+  have addrOf_ok : ∀ w j a, SSE2.addrOf cfg lv K1 w j = some a → SSE2.addr cfg lv K1 w (j : Int) = .ok a := by
+    intro w j a h
+    unfold SSE2.addrOf at h
+    split at h
+    · rename_i a' ha; cases h; exact ha
+    · cases h
+  have inj := SSE2.addr_inj cfg lv hl.hmac_len hl8 hu.bits K1
+  obtain ⟨tk, htk, _⟩ := SSE2.token_ok cfg lv hl.hmac_len hu K1 w hK hwl hn
+  refine ⟨tk, htk, SSE2.search_absent_empty cfg lv K1 db I hs hkeys ?_ hcap' w ?_ tk htk⟩
+  · intro w ids i w' ids' i' a h1 h2 hi hi' he he'
+    have := inj w w' (1 + i) (1 + i') a (hvalid _ h1) (hvalid _ h2) (addrOf_ok _ _ _ he) (addrOf_ok _ _ _ he')
+    exact ⟨this.1, by omega⟩
+  · intro a ha ⟨w', ids', i, hm, _, he⟩
+    have := (inj w w' (1 + 0) (1 + i) a hw (hvalid _ hm) ha (addrOf_ok _ _ _ he)).1
+    subst this
+    exact habs (List.mem_map.mpr ⟨(w, ids'), hm, rfl⟩)
 
 /-- DP17: a keyword none of whose `L` probe keys `H(F_k1(w) ‖ c)` is in the hash table gets the empty result: no bucket is
     read, nothing is decrypted, nothing raises -/
